@@ -77,6 +77,7 @@ type ConcScenario struct {
 	Gw         GwCfg
 	NegIdle    bool
 	Segmented  bool // client connections deliver one write per read
+	PostRead   bool // scheduling point after every gateway read on a client connection
 	RoundRobin bool // default schedule advances the clients in lockstep (cyclic candidate order)
 	Deviation  bool // bound deviations from the default schedule instead of preemptions (multi-tunnel scenarios)
 	MaxSteps   int
@@ -193,6 +194,20 @@ func runClient(w *World, h http.Handler, p TunnelPlan, o *TunnelObs) {
 		switch {
 		case strings.HasPrefix(op, "data:"):
 			c.SendSegment(tsgu.Data([]byte(op[5:])))
+		case strings.HasPrefix(op, "bigdata:"):
+			// one DATA packet of about 5000 bytes made of the tag repeated; on the legacy transport the
+			// chunk header and the chunk body arrive in separate reads (so the body read goes straight
+			// from the connection into the reader's buffer)
+			tag := op[8:]
+			pl := []byte(strings.Repeat(tag, 5000/len(tag)))
+			pkt := tsgu.Data(pl)
+			if c.Kind == "legacy" {
+				c.In.Write([]byte(strconv.FormatInt(int64(len(pkt)), 16) + "\r\n"))
+				c.In.Write(pkt)
+				c.In.Write([]byte("\r\n"))
+			} else {
+				c.SendSegment(pkt)
+			}
 		case op == "ka":
 			c.SendSegment(tsgu.Keepalive())
 		case op == "close":
@@ -348,6 +363,7 @@ func RunConc(sc ConcScenario, prefix []int, logOn bool) *ConcResult {
 	x := vsched.Run(prefix, max, logOn, func(x *vsched.Exec) { x.RoundRobin = sc.RoundRobin }, func() {
 		w := NewWorld()
 		w.Segmented = sc.Segmented
+		w.PostRead = sc.PostRead
 		res.World = w
 		cfg := sc.Gw
 		if cfg.Hosts == nil {
